@@ -4,7 +4,8 @@ out="$1"; shift
 mkdir -p "$out"
 for d in "$@"; do
   [ -f "$d/meta.json" ] || continue
-  id=$(echo "$d" | sed -E 's|.*/(C[0-9]+)/(MUTANTS/)?(m[0-9]+)/?$|\1-\3|')
+  id=$(basename "$d")
+  case "$id" in C[0-9]*-m[0-9]*) ;; *) id=$(echo "$d" | sed -E 's|.*/(C[0-9]+)/(MUTANTS/)?(m[0-9]+)/?$|\1-\3|');; esac
   timeout 1500 python3 "$(dirname "$0")/seeded.py" "$d" > "$out/$id.json" 2> "$out/$id.err" || true
   python3 - "$out/$id.json" "$id" <<'PY'
 import json,sys
